@@ -1,6 +1,7 @@
 import RsslVerif.Lemmas.CondChain
 import RsslVerif.Lemmas.CondParse
 import RsslVerif.Lemmas.CondFile
+import RsslVerif.Lemmas.CondMacro
 /-!
 # C11 — conditional compilation selects exactly the branches C semantics select
 
@@ -457,5 +458,87 @@ theorem else_of_other_file_accepted :
   RsslVerif.Lemmas.CondFile.witnessB
 
 end IncludeBoundary
+
+/-! ## 6. macro replacement inside conditions, on the composed model (C11 tables + C12 macro engine)
+
+`Model.CondFile.condD` = `trim_whitespace` + `apply_macros(.., apply_defined = true, ..)` (`topLoop`: the
+outermost loop with the `defined` test; arguments and bodies go through C12's `Macro.applyLoop`, exactly as
+the recursive calls of the Rust code pass `apply_defined = false`) + `condition_parser::parse`.  Ordinary
+text is flushed through C12's `Macro.applyMacros` unchanged (`Model.CondFile.flush`), so every C12 theorem
+about text applies verbatim to the composed model. -/
+
+section Composed
+open RsslVerif.Model.CondFile RsslVerif.Model.Macro RsslVerif.Lemmas.CondFile RsslVerif.Lemmas.CondMacro
+
+/-- **`defined` is protected from expansion, macros are expanded.**  For every macro list `ms` — object-like
+    or function-like macros, bodies of any shape — and every line of the form `a defined X r` /
+    `a defined ( X ) r` (blanks as the lexer leaves them; `a`, `r` runs of tokens that are neither macro
+    names nor `defined`): macro replacement turns the operator and its operand into the single token `1`/`0`
+    according to whether *some* macro is called `X`, and leaves everything else alone — the operand `X` is
+    never looked up as a macro, whatever it names.  By contrast the same `X` standing alone *is* replaced by
+    its body (third part, for object-like macros with identifier-free bodies). -/
+theorem defined_is_protected (ms : List Macro) (a r : List PTok)
+    (ha : Quiet (ms.map (⟨·, false⟩)) a) (hr : Quiet (ms.map (⟨·, false⟩)) r) :
+    (∀ (x : String) (w : PTok) (bs : List PTok) (ld lx : Bool), w.tok = .ws → Blanks bs →
+      applyMacrosD ms (a ++ ⟨.id "defined", ld⟩ :: (w :: bs ++ ⟨.id x, lx⟩ :: r)) =
+        .ok (a ++ definedTok (ms.any (fun m => m.name == x)) :: r)) ∧
+    (∀ (x : String) (bs1 bs2 bs3 : List PTok) (ld l1 l2 l3 : Bool), Blanks bs1 → Blanks bs2 → Blanks bs3 →
+      applyMacrosD ms (a ++ ⟨.id "defined", ld⟩ ::
+          (bs1 ++ ⟨.lparen, l1⟩ :: bs2 ++ ⟨.id x, l2⟩ :: bs3 ++ ⟨.rparen, l3⟩ :: r)) =
+        .ok (a ++ definedTok (ms.any (fun m => m.name == x)) :: r)) ∧
+    (∀ (pre post : List Macro) (m : Macro) (l : Bool), ms = pre ++ m :: post →
+      (∀ p ∈ pre, p.name ≠ m.name) → m.isFunction = false → plainBody m.body = true → m.name ≠ "defined" →
+      applyMacrosD ms (a ++ ⟨.id m.name, l⟩ :: r) = .ok (a ++ (m.body ++ r))) := by
+  have hany : ∀ x, isDefinedIn (ms.map (⟨·, false⟩)) x = ms.any (fun m => m.name == x) := by
+    intro x; simp [isDefinedIn, List.any_map, Function.comp_def]
+  refine ⟨?_, ?_, ?_⟩
+  · intro x w bs ld lx hw hb
+    rw [← hany]
+    exact applyMacrosD_res ms _ _ (Res.definedId a bs r r x ld lx w ha hw hb (Res.done r hr))
+  · intro x bs1 bs2 bs3 ld l1 l2 l3 h1 h2 h3
+    rw [← hany]
+    exact applyMacrosD_res ms _ _ (Res.definedParen a bs1 bs2 bs3 r r x ld l1 l2 l3 ha h1 h2 h3 (Res.done r hr))
+  · intro pre post m l hms hpre hobj hbody hn
+    refine applyMacrosD_res ms _ _ (Res.objMacro a r r (pre.map (⟨·, false⟩)) (post.map (⟨·, false⟩)) m l ha ?_ ?_
+      hobj hbody hn (Res.done r hr))
+    · rw [hms]; simp
+    · intro e he
+      obtain ⟨p, hp, rfl⟩ := List.mem_map.mp he
+      exact hpre p hp
+
+/-- **Main theorem (condition values, composed model).**  Let `ms` be any macro list and `R` an `#if/#elif`
+    line (token level, with blanks) such that, after `trim_whitespace`, (1) `R` is covered by `Res`: runs of
+    non-macro tokens, `defined X` / `defined ( X )` with arbitrary `X`, and object-like macros with
+    identifier-free bodies, and (2) without blanks `R` is the printing of a condition tree `e` that is
+    well-formed in the parser's view of the macro table (`cenv`: each macro used as an operand has a
+    one-literal body).  Then the composed model — C12's macro engine with the `defined` loop on top, then the
+    precedence-climbing parser — yields the truth of the reference value of `e` over unsigned 64-bit
+    integers: `defined` is evaluated on the unexpanded operand and macros are expanded before evaluation. -/
+theorem cond_eval_composed (ms : List Macro) (R R' : List PTok) (e : Expr)
+    (hres : Res (ms.map (⟨·, false⟩)) (trim R) R')
+    (hpr : condToks (trim R) = print 4 e)
+    (hwf : e.WellFormedIn (cenv (ms.map (⟨·, false⟩)))) :
+    condD ms R = .ok (evalU64 (cenv (ms.map (⟨·, false⟩))) e != 0) := by
+  rw [condD_eq_condValue ms R R' hres, hpr, cond_parse_eval _ e hwf]
+
+/-- Non-vacuity: `A == 5 && defined F && defined ( X ) && ! defined U` with `A` ↦ `5`, a function-like
+    `F(x)` ↦ `x + G` and `X` ↦ `Y` satisfies the hypotheses, and the value is `true`: `F` and `X` are
+    reported as defined without being expanded (expanding `F` without arguments or `X` to `Y` would change the
+    result), `A` is replaced by `5` before the comparison. -/
+example : condD exMacros exLine = .ok true := by
+  have ht : trim exLine = exLine := by decide
+  have h := cond_eval_composed exMacros exLine exOut
+    (.bin .land (.bin .land (.bin .land (.bin .eq (.name "A") (.lit 5 false)) (.defined "F" false))
+      (.defined "X" true)) (.not (.defined "U" false)))
+    (by rw [ht]; exact exRes) (by rw [ht]; decide)
+    ⟨by
+      intro x hx
+      have : x = "A" := by simpa [Expr.operandNames] using hx
+      subst this
+      exact Or.inr ⟨[.LiteralInt 5], 5, by decide, rfl⟩,
+     by decide⟩
+  rw [h]; decide
+
+end Composed
 
 end RsslVerif.Thm.C11
